@@ -56,6 +56,15 @@ func (g *c38Gen) param() c38Param {
 	}
 	if w, ok := c38FixedTypes[p.tp]; ok {
 		p.value = g.bytesN(w)
+		if (p.tp == 4 || p.tp == 5) && g.intn(5) == 0 {
+			// NaN and the infinities are rejected by bindStmtArgs
+			if p.tp == 4 {
+				p.value = c38Pick(g, [][]byte{{0, 0, 0x80, 0x7f}, {0, 0, 0x80, 0xff}, {0, 0, 0xc0, 0x7f}, {1, 0, 0x80, 0xff}, {0xff, 0xff, 0x7f, 0x7f}})
+			} else {
+				p.value = c38Pick(g, [][]byte{{0, 0, 0, 0, 0, 0, 0xf0, 0x7f}, {0, 0, 0, 0, 0, 0, 0xf0, 0xff}, {0, 0, 0, 0, 0, 0, 0xf8, 0x7f},
+					{1, 0, 0, 0, 0, 0, 0xf0, 0xff}, {0xff, 0xff, 0xff, 0xff, 0xff, 0xff, 0xef, 0x7f}})
+			}
+		}
 		return p
 	}
 	switch p.tp {
@@ -579,4 +588,7 @@ func genC38(g *core.Gen) {
 	for _, c := range c38Cases(g.Rand, g.Scale, g.Tier != "quick") {
 		g.Emit(c.in, c.tags...)
 	}
+	// several sessions sharing the packet buffer pool (c38_own.go); generated last, so that the
+	// process-level replay (Extra) regenerates the cases above from the same seed
+	genC38Own(g)
 }
